@@ -1,5 +1,11 @@
 """C13 — compiling is independent of what was compiled before from the same dictionary.
 
+Theorems (lean/Asn1Proofs/Properties/C13.lean): `run_idempotent` (a rewrite of a rewritten dictionary is the
+identity), `run_history` (after ANY sequence of numeric_enums flags the dictionary equals a single fresh rewrite
+with the last flag, under the decidable hypothesis HistoryOK), `clean_after_compile`; the model `Preprocess.run`
+of `Compiler.pre_process` is tied to the code by exact dictionary equality (driver ops prep / prepseq) on generated
+specifications, hand-made dictionaries and the repository fixtures, after 1, 3, 6 and 9 real rewrites.
+
 Stage K: the parsed dictionary of a generated module (reorganised rendering: references, value references, BIT/OCTET
 STRING and ENUMERATED defaults, optional IMPORTS split, EXTENSIBILITY IMPLIED) is put through a random history of up to
 6 steps — compile_dict for a random codec and numeric_enums, eval(pformat(d)), deepcopy — and after every compile the
@@ -12,7 +18,6 @@ from .. import core, impl
 from ..gen import Gen, Opts, module_text, RefCtx
 from .c17 import fingerprint
 
-LEVEL = 'exploration'
 CODECS = ['ber', 'der', 'per', 'uper', 'oer', 'jer', 'xer', 'gser']
 
 
@@ -69,10 +74,189 @@ def work(job):
     return part
 
 
+WITNESSES = [
+    ('C13-enum-value-reference', 'M DEFINITIONS AUTOMATIC TAGS ::= BEGIN A ::= SEQUENCE { e ENUMERATED { a(b), b(1) } DEFAULT a } b INTEGER ::= 7 END', 'A', (True,),
+     'ENUMERATED { a(b), b(1) } DEFAULT a with b INTEGER ::= 7'),
+    ('C13-components-of-type-capture', '''M0 DEFINITIONS AUTOMATIC TAGS ::= BEGIN E ::= ENUMERATED { a(0), b(5) } S ::= SEQUENCE { m E DEFAULT b } END
+M1 DEFINITIONS AUTOMATIC TAGS ::= BEGIN IMPORTS S FROM M0; E ::= ENUMERATED { c(5), d(7), e(8) } T ::= SEQUENCE { COMPONENTS OF S, x BOOLEAN OPTIONAL } END''', 'T', (True, False),
+     'COMPONENTS OF S copies m E DEFAULT b into a module with its own E'),
+]
+BUILTIN_PREFIXES = ('SEQUENCE', 'SET', 'CHOICE', 'INTEGER', 'BOOLEAN', 'NULL', 'ENUMERATED', 'BIT STRING', 'OCTET STRING', 'REAL')
+
+
+def finding_predicates(d):
+    """Which of the recorded C13 defects a parsed dictionary can trigger (mirrors the negation of the theorem
+    hypotheses EnumRefsStable / HistoryOK on parser output)."""
+    out = set()
+
+    def lookup(name, mn, seen=()):
+        m = d.get(mn)
+        if m is None or (name, mn) in seen:
+            return None
+        if name in m['types']:
+            return m['types'][name], mn
+        for frm, syms in m['imports'].items():
+            if name in syms:
+                return lookup(name, frm, seen + ((name, mn),))
+        return None
+
+    def walk(t, mn, top):
+        if not isinstance(t, dict):
+            return
+        for it in t.get('values', []) or []:
+            if it is not None and isinstance(it[1], str):
+                out.add('C13-enum-value-reference')
+        for m in t.get('members', []) or []:
+            if m is None:
+                continue
+            if isinstance(m, list):
+                for x in m:
+                    walk(x, mn, False)
+                continue
+            if set(m) == {'components-of'}:
+                r = lookup(m['components-of'], mn)
+                if r is not None and r[1] != mn:
+                    out.add('cross-module-components-of')
+                    src, smn = r
+                    for sm in src.get('members', []) or []:
+                        if isinstance(sm, dict) and 'type' in sm:
+                            a = lookup(sm['type'], smn)
+                            b = lookup(sm['type'], mn)
+                            if a is not None and (b is None or b[1] != a[1]):
+                                out.add('C13-components-of-type-capture')
+                continue
+            walk(m, mn, False)
+        if 'element' in t:
+            walk(t['element'], mn, False)
+
+    for mn, m in d.items():
+        for t in m['types'].values():
+            walk(t, mn, True)
+    return out
+
+
+def fp2(spec, probes, codec, numeric):
+    out = [sorted(spec.types)]
+    for name, a, b in probes:
+        v = b if numeric else a
+        r = impl.encode(spec, name, v)
+        if r[0] == 'ok':
+            d = impl.decode(spec, name, r[1]) if codec != 'gser' else ('n/a', None)
+            out.append((name, 'ok', r[1], repr(d[1]) if d[0] == 'ok' else d[:2]))
+        else:
+            out.append((name, r[1]))
+    return out
+
+
+def work_prep(job):
+    """(a) dictionary-level tie of the Lean model with Compiler.pre_process, (b) behaviour after a history vs a
+    fresh compile, on specifications of the dictionary-rewrite generator (COMPONENTS OF, IMPORTS chains, all tag
+    and DEFAULT spellings), hand-made dictionaries and fixtures."""
+    import random
+    from collections import Counter
+    import asn1tools
+    from .. import prep, cvalues
+    part = core.Part()
+    model = core.Model()
+    stats = Counter()
+    lines, index = [], []
+    for (seed, label, text, kind) in job:
+        rng = random.Random(seed)
+        if kind == 'mutated':
+            parse = (lambda text=text, seed=seed: prep.mutate_dict(asn1tools.parse_string(text), random.Random(seed + 1)))
+        elif kind == 'file':
+            parse = (lambda text=text: asn1tools.parse_files([text]))
+        else:
+            parse = (lambda text=text: asn1tools.parse_string(text))
+        p = prep.plan_case(label, parse, rng, stats)
+        if p is not None and p[1] is not None:
+            for line, expected, what in p[1]:
+                lines.append(line)
+                index.append((label, text, kind, expected, what))
+        if kind != 'text':
+            continue
+        # (b) behaviour
+        try:
+            d = asn1tools.parse_string(text)
+            with core.time_limit(60):
+                base = asn1tools.compile_string(text, 'ber')
+        except Exception as e:
+            part.count('prep.behaviour.skip.' + type(e).__name__)
+            continue
+        preds = finding_predicates(d)
+        probes = cvalues.probes(base, rng, per_type=2)[:24]
+        history = []
+        sorted_step = False
+        for step in range(rng.randint(2, 5)):
+            x = rng.random()
+            if x < 0.15:
+                d = eval(pformat(d))
+                sorted_step = True
+                history.append('eval(pformat(d))')
+                continue
+            if x < 0.22:
+                d = copy.deepcopy(d)
+                history.append('deepcopy(d)')
+                continue
+            codec = rng.choice(CODECS)
+            numeric = rng.random() < 0.45
+            history.append('compile_dict(d, %r, numeric_enums=%r)' % (codec, numeric))
+            part.case((text, tuple(history)))
+            try:
+                with core.time_limit(60):
+                    got = ('ok', asn1tools.compile_dict(d, codec, numeric_enums=numeric))
+            except Exception as e:
+                got = ('err', impl.classify(e))
+            try:
+                with core.time_limit(60):
+                    fresh = ('ok', asn1tools.compile_string(text, codec, numeric_enums=numeric))
+            except Exception as e:
+                fresh = ('err', impl.classify(e))
+            part.count('prep.behaviour.compile.%s' % got[0])
+            bad = None
+            if got[0] != fresh[0] or (got[0] == 'err' and got[1] != fresh[1]):
+                bad = ('compile_dict outcome after a history differs from a fresh compile', {'got': got[1] if got[0] == 'err' else 'ok', 'fresh': fresh[1] if fresh[0] == 'err' else 'ok'})
+            elif got[0] == 'ok':
+                f1, f2 = fp2(got[1], probes, codec, numeric), fp2(fresh[1], probes, codec, numeric)
+                if f1 != f2:
+                    diff = next(((a, b) for a, b in zip(f1, f2) if a != b), (f1[:1], f2[:1]))
+                    bad = ('a specification compiled after a history behaves differently from a fresh compile of the same text', {'first_difference': repr(diff)[:800]})
+            if bad is None:
+                continue
+            if 'C13-enum-value-reference' in preds:
+                part.known_finding('C13-enum-value-reference', 'an ENUMERATED whose item number is a value reference: the DEFAULT conversion under numeric_enums is not idempotent')
+            elif 'C13-components-of-type-capture' in preds:
+                part.known_finding('C13-components-of-type-capture', 'members copied by COMPONENTS OF from another module have their type names resolved in the including module, so later rewrites convert their DEFAULTs differently')
+            elif sorted_step and 'cross-module-components-of' in preds:
+                part.known_finding('C13-pformat-reorders-modules', 'pformat sorts the modules; with a cross-module COMPONENTS OF the result depends on module order (C19-components-of-module-order)')
+            else:
+                rep = {'module': text, 'history': history}
+                rep.update(bad[1])
+                part.violation(bad[0], rep)
+            break
+    answers = model.batch(lines, timeout=3600) if lines else []
+    for (label, text, kind, expected, what), got, line in zip(index, answers, lines):
+        part.case(('prep', text, what))
+        if got == expected:
+            part.count('prep.dictionary.equal')
+            part.sample({'specification': text[:400], 'history': what, 'dictionary_after_history': 'equal to Preprocess.run of the Lean model (%d characters)' % len(expected)}, limit=1)
+        else:
+            k = next((i for i, (a, b) in enumerate(zip(expected, got)) if a != b), min(len(expected), len(got)))
+            part.disagreement('corr.prep', {'specification': text[:3000], 'kind': kind, 'history': what,
+                                            'python': expected[max(0, k - 200):k + 200], 'model': got[max(0, k - 200):k + 200]})
+    for k, v in stats.items():
+        if not k.startswith('_'):
+            part.count('prep.' + k, v)
+    part.count('model_driver_requests', len(lines))
+    return part
+
+
 def run(ctx):
     rng = ctx.rng
     ctx.assumptions += ["Python's pprint/eval on plain data (dict/list/tuple/str/int/bool/None/bytes) is trusted to be the identity"]
     ctx.extra['rule'] = ('generated modules (two types, reorganised rendering, optional IMPORTS split, optional EXTENSIBILITY IMPLIED) x random histories of 2-6 steps over 8 codecs x numeric_enums with pformat/eval and deepcopy steps; '
+                         'plus specifications of the dictionary-rewrite generator (COMPONENTS OF, IMPORTS chains, every tag and DEFAULT spelling), hand-made dictionaries and the fixtures tests/files/*.asn: '
+                         'dictionary after 1/3/6/9 real rewrites == Lean Preprocess.run (ops prep, prepseq), and behaviour after a history == fresh compile on values generated from the compiled tree; '
                          'distinct = distinct (module, history prefix)')
     opts = Opts(max_depth=3, allow_exotic=0.0, big_lengths=0.0)
     jobs = []
@@ -86,6 +270,23 @@ def run(ctx):
     n = 28
     parts = core.parallel_map(work, [jobs[k::n] for k in range(n)])
     core.merge(ctx, parts)
+    # dictionary-level tie and behaviour on the rewrite generator
+    import random
+    from .. import prep
+    pjobs = []
+    for label, text in prep.HAND:
+        pjobs.append((rng.getrandbits(32), label, text, 'text'))
+    for i in range(ctx.n(300, 4000)):
+        sub = random.Random(rng.getrandbits(32))
+        text = prep.PGen(sub).spec() if i % 2 == 0 else prep.harness_module(sub)
+        pjobs.append((rng.getrandbits(32), 'generated', text, 'mutated' if i % 5 == 4 else 'text'))
+    import glob
+    import os
+    for f in sorted(glob.glob(os.path.join(core.REPO, 'tests', 'files', '*.asn'))):
+        pjobs.append((rng.getrandbits(32), os.path.basename(f), f, 'file'))
+    parts = core.parallel_map(work_prep, [pjobs[k::n] for k in range(n)])
+    core.merge(ctx, parts)
+    ctx.model.calls += ctx.hist.pop('model_driver_requests', 0)
     # regression vector of a repaired defect: numeric_enums=True followed by False on the same dictionary
     import asn1tools
     text = 'M DEFINITIONS AUTOMATIC TAGS ::= BEGIN A ::= SEQUENCE { e ENUMERATED { a(0), b(5) } DEFAULT b } END'
@@ -96,6 +297,22 @@ def run(ctx):
         ok = s.decode('A', s.encode('A', {})) == {'e': 'b'}
     except Exception:
         ok = False
+    # witnesses of the recorded findings (theorems idempotence_fails_enum_value_reference, history_fails_components_of)
+    for fid, text, tname, hist, what in WITNESSES:
+        d = asn1tools.parse_string(text)
+        last = None
+        for numeric in hist:
+            last = asn1tools.compile_dict(d, 'ber', numeric_enums=numeric)
+        fresh = asn1tools.compile_string(text, 'ber', numeric_enums=hist[-1])
+        try:
+            a, b = last.decode(tname, b'\x30\x00'), fresh.decode(tname, b'\x30\x00')
+        except Exception as e:
+            a, b = 'error', type(e).__name__
+        ctx.case(('witness', fid))
+        if a == b:
+            ctx.notes.append('stale finding: %s no longer reproduces' % fid)
+        else:
+            ctx.known_finding(fid, 'witness: %s: after compile_dict with numeric_enums=%s an empty SEQUENCE decodes to %r, fresh compile gives %r' % (what, list(hist), a, b))
     ctx.case(('regression', 'numeric-enum-default'))
     if not ok:
         ctx.violation('compile_dict(d, numeric_enums=True) followed by numeric_enums=False leaks integer ENUMERATED defaults', {'module': text, 'history': ['compile_dict(d, uper, numeric_enums=True)', 'compile_dict(d, uper, numeric_enums=False)']})
